@@ -24,6 +24,7 @@ import (
 	"github.com/polynetwork/poly/native"
 	"github.com/polynetwork/poly/native/event"
 	"github.com/polynetwork/poly/native/service/utils"
+	"strings"
 )
 
 func SerializeStringArray(data []string) []byte {
@@ -91,9 +92,10 @@ func putStateValidators(native *native.NativeService, stateValidators []string) 
 	newSVs = append(newSVs, oldSVs...)
 	// filter duplicate svs
 	for _, sv := range stateValidators {
+		// a key already tracked, or listed twice in this request, in any spelling (hex is case-insensitive)
 		isInOld := false
-		for _, oldSv := range oldSVs {
-			if sv == oldSv {
+		for _, oldSv := range newSVs {
+			if strings.EqualFold(sv, oldSv) {
 				isInOld = true
 				break
 			}
